@@ -295,19 +295,19 @@ Proof.
   cbn [did ddom dcod] in *. rewrite Ca, Cc, Db, <- app_assoc. unfold wires. rewrite py_split_any. reflexivity.
 Qed.
 
-Lemma rcurry_right_total d0 n : wf d0 -> 0 <= n <= len (ddom d0) -> exists d, rcurry d0 n false = Ok d.
+Lemma rcurry_right_total d0 n : wf d0 -> exists d, rcurry d0 n false = Ok d.
 Proof.
-  intros W0 Hn. unfold rcurry.
+  intros W0. unfold rcurry.
   set (wires := py_slice (ddom d0) (Some (py_or (- n) (len (ddom d0)))) None).
   assert (A : adjoint_ok wires (ty_l wires) = true).
   { unfold adjoint_ok. rewrite ty_r_l, (ty_eqb_refl wires). apply orb_true_r. }
   destruct (dcaps_total _ _ A) as (caps & Ec). rewrite Ec. cbn [bind].
   destruct (dcaps_types _ _ _ Ec) as (Wc & Dc & Cc).
-  destruct (dtensor_ok (did (py_slice (ddom d0) None (Some (len (ddom d0) - n)))) caps (did_wf _) Wc)
+  destruct (dtensor_ok (did (py_slice (ddom d0) None (Some (py_or (- n) (len (ddom d0)))))) caps (did_wf _) Wc)
     as (a & -> & Wa & Da & Ca & _). cbn [bind].
   destruct (dtensor_ok d0 (did (ty_l wires)) W0 (did_wf _)) as (b & -> & Wb & Db & Cb & _). cbn [bind].
   destruct (dthen_ok a b Wa Wb) as (d & -> & _); [|eauto].
-  cbn [did ddom dcod] in *. rewrite Ca, Cc, Db, app_assoc. unfold wires. rewrite right_split by lia. reflexivity.
+  cbn [did ddom dcod] in *. rewrite Ca, Cc, Db, app_assoc. unfold wires. rewrite right_split. reflexivity.
 Qed.
 
 Lemma b2r_loop_total bs :
@@ -340,7 +340,7 @@ Theorem f_box_total : forall b, box_good b = true -> exists d, f_box b = Ok d.
 Proof.
   induction b as [n dm c|o|u|l r|l r|l r|l r|dm c bs offs n lf IH] using bbox_ind'; intros G;
     try (apply rule_image_total; [exact G|reflexivity]).
-  pose proof G as G0. cbn [box_good] in G. rewrite !andb_true_iff in G. destruct G as ((Gbs & Gs) & Gn).
+  cbn [box_good] in G. apply andb_true_iff in G. destruct G as (Gbs & Gs).
   destruct (bscan dm bs offs) as [t|] eqn:S; [|discriminate]. apply bty_eqb_eq in Gs. subst t.
   rewrite f_box_curry. cbn [xcod].
   destruct (b2r_loop_total bs IH offs dm (did (F_ty dm)) c Gbs S (did_wf _) eq_refl) as (d0 & E0).
@@ -350,14 +350,7 @@ Proof.
   destruct T as (W0 & D0).
   destruct lf; cbn [ty_left ty_right bind]; rewrite E0; cbn [bind].
   - apply rcurry_left_total. exact W0.
-  - apply rcurry_right_total; [exact W0|]. cbn [orb] in Gn. apply andb_true_iff in Gn.
-    destruct Gn as (Gn1 & Gn2). apply Z.leb_le in Gn1, Gn2. rewrite D0.
-    assert (HF : F_ty dm = F_ty (py_slice dm None (Some (len dm - n)))
-                           ++ F_ty (py_slice dm (Some (py_or (- n) (len dm))) None))
-      by (rewrite <- F_ty_app, right_split by lia; reflexivity).
-    rewrite HF, len_app.
-    pose proof (len_nonneg (F_ty (py_slice dm None (Some (len dm - n))))).
-    pose proof (len_nonneg (F_ty (py_slice dm (Some (py_or (- n) (len dm))) None))). lia.
+  - apply rcurry_right_total. exact W0.
 Qed.
 
 (* biclosed2rigid is total on well-typed diagrams of such boxes *)
@@ -367,4 +360,16 @@ Proof.
   destruct (bscan _ _ _) as [t|] eqn:S; [|discriminate]. apply bty_eqb_eq in Gs. subst t.
   eapply b2r_loop_total; eauto using did_wf.
   apply Forall_forall. intros b _. apply f_box_total.
+Qed.
+
+(* every biclosed diagram the public constructors accept is translated, into a
+   well-typed rigid diagram between the images of its domain and codomain *)
+Theorem build_b2r_typed dom cod bs offs D : build dom cod bs offs = Ok D ->
+  exists d, b2r D = Ok d /\ wf d /\ ddom d = F_ty dom /\ dcod d = F_ty cod.
+Proof.
+  intros H. pose proof (build_built _ _ _ _ _ H) as G.
+  destruct (b2r_total _ G) as (d & E). exists d. split; [exact E|].
+  destruct (b2r_type_preserving_lemma _ _ G E) as (W & D0 & C0).
+  unfold build in H. destruct (build_boxes bs) as [[]|]; [cbn [bind] in H|discriminate].
+  destruct (bmk_built _ _ _ _ _ H) as (-> & _). auto.
 Qed.
